@@ -23,6 +23,7 @@ def classes():
 
     class Parent(HasTraits):
         key = Int
+        tag = Int
         child = Instance(Child)
 
         def __eq__(self, other):
@@ -50,7 +51,8 @@ def run_history(rnd, steps, t):
     def h2(event):
         log["H2"].append(1)
     handlers = {"H1": h1, "H2": h2}
-    cnt = {tn: {"H1": 0, "H2": 0} for tn in targets}
+    cnt = {tn: {"H1": [0, 0], "H2": [0, 0]} for tn in targets}
+    EXPR = {1: "child.value", 2: "tag", 3: ["child.value", "tag"]}
     alive = ["T1", "T2", "T3"]
     out = []
 
@@ -62,43 +64,63 @@ def run_history(rnd, steps, t):
         for v in log.values():
             del v[:]
         return r
+
+    def probetag():
+        out_ = {}
+        for tn2 in ("T1", "T2", "T3"):
+            for v in log.values():
+                del v[:]
+            if tn2 in targets:
+                targets[tn2].tag += 1
+            out_[tn2] = {h: len(v) for h, v in log.items()}
+        for v in log.values():
+            del v[:]
+        return out_
     for s in range(steps):
-        op = rnd.choice(["reg", "reg", "unreg", "change", "change", "collect"] if s > 3 else ["reg", "reg", "unreg", "change"])
+        op = rnd.choice(["reg", "reg", "unreg", "unreg", "change", "changetag", "collect"] if s > 3 else ["reg", "reg", "unreg", "change"])
+        mask = rnd.choice([1, 2, 3, 3])
         tn = rnd.choice(alive) if alive else "T1"
         hn = rnd.choice(["H1", "H2"])
         if op == "collect" and (len(alive) <= 1 or rnd.random() < 0.7):
             op = "change"
         if op in ("reg", "unreg", "collect") and not alive:
             op = "change"
-        if op == "reg" and cnt[tn][hn] >= 2:
+        if op == "reg" and max(cnt[tn][hn]) >= 2:
             op = "unreg"
-        pre_cnt = {a: dict(b) for a, b in cnt.items()}
+        if op == "changetag" and not alive:
+            op = "change"
+        pre_cnt = {a: {h: list(c) for h, c in b.items()} for a, b in cnt.items()}
         pre_alive = list(alive)
         exc, collected = "", 1
         for v in log.values():
             del v[:]
         try:
+            graphs = [0, 1] if mask == 3 else [mask - 1]
             if op == "reg":
-                targets[tn].observe(handlers[hn], "child.value")
-                cnt[tn][hn] += 1
+                targets[tn].observe(handlers[hn], EXPR[mask])
+                for g in graphs:
+                    cnt[tn][hn][g] += 1
             elif op == "unreg":
-                targets[tn].observe(handlers[hn], "child.value", remove=True)
-                cnt[tn][hn] -= 1
+                targets[tn].observe(handlers[hn], EXPR[mask], remove=True)
+                for g in graphs:
+                    cnt[tn][hn][g] -= 1
             elif op == "change":
                 child.value += 1
+            elif op == "changetag":
+                targets[tn].tag += 1
             else:
                 w = weakref.ref(targets[tn])
                 del targets[tn]
                 gc.collect()
                 collected = 1 if w() is None else 0
                 alive.remove(tn)
-                cnt[tn] = {"H1": 0, "H2": 0}
+                cnt[tn] = {"H1": [0, 0], "H2": [0, 0]}
         except NotifierNotFound:
             exc = "NotifierNotFound"
         except Exception as e:
             exc = type(e).__name__
         calls = {h: len(v) for h, v in log.items()}
-        out.append({"tid": t, "step": s, "op": op, "t": tn, "h": hn, "cnt": pre_cnt, "alive": pre_alive, "exc": exc, "calls": calls,
+        out.append({"tid": t, "step": s, "op": op, "t": tn, "h": hn, "m": mask, "probetag": probetag(), "cnt": pre_cnt, "alive": pre_alive, "exc": exc, "calls": calls,
                     "probe": probe(), "collected": collected})
     return out
 
